@@ -1,9 +1,9 @@
-(* Obligation C20/normal_mean_antiderivative.  Statement as printed by Coq from Inferno.C20.DistProofs; proof by reference.
+(* Obligation C20/normal_mean_antiderivative.  Statement as printed by Coq from Inferno.C20.DistNormal; proof by reference.
    This file contains nothing else, so the statement cannot be weakened quietly. *)
 From Coq Require Import Reals List ZArith Bool.
 From Coquelicot Require Import Coquelicot.
 From Flocq Require Import Core.Raux.
-From Inferno Require Import Base.Num Base.NumR C20.Model C20.Spec C20.DistProofs.
+From Inferno Require Import Base.Num Base.NumR Gen.Distributions C20.Model C20.Spec C20.DistNormal.
 Import ListNotations.
 Open Scope R_scope.
 Theorem normal_mean_antiderivative : forall (erf : R -> R) (loc scale : R) (x : R_AbsRing),
@@ -14,5 +14,5 @@ Theorem normal_mean_antiderivative : forall (erf : R -> R) (loc scale : R) (x : 
      loc * normal_cdf RN erf x0 loc scale -
      scale * scale * normal_pdf RN (2 * PI) x0 loc scale) x
     (x * normal_pdf RN (2 * PI) x loc scale).
-Proof. exact (@Inferno.C20.DistProofs.normal_mean_antiderivative). Qed.
+Proof. exact (@Inferno.C20.DistNormal.normal_mean_antiderivative). Qed.
 Print Assumptions normal_mean_antiderivative.
